@@ -2940,3 +2940,57 @@ def error_quadratic(r: R, chk, qual: str, rule="ERROR-QUADRATIC"):
                    func=qual, construct=f"error not quadratic in the constrained {tn}")
     chk.floor(rule, f"error expressions in {qual}", n, 2)
     return n
+
+
+# ---------------------------------------------------------------------------------------------------------
+# NODES-OF-NEW: the knots handed to update() as interpolation nodes are the knots of the NEW knot vector
+def nodes_of_new(r: R, chk, quals: List[str], callee: str = "curves.BaseCurve.update", rule="NODES-OF-NEW"):
+    """update(newknotvector, tolerance, nodes) interpolates the old curve at `nodes` with the new space: the nodes must be knots the
+    new vector still has (a knot whose multiplicity drops to 0 is no breakpoint of the new curve, and more nodes than the new space
+    has control points cannot be interpolated at all).  Structural: the nodes argument is computed from the very variable that is
+    passed as the new knot vector, after the last in-place change of that variable."""
+    cal = r.prog.func(callee)
+    params = [p for p in cal.params if p not in ("self", "cls")]
+    n = 0
+    for q in quals:
+        fi = r.prog.func(q)
+        pos = _block_defs(fi.node)
+        stmts_of = {}
+        for st in ast.walk(fi.node):
+            if isinstance(st, ast.stmt):
+                for x in ast.walk(st):
+                    stmts_of.setdefault(id(x), st)
+        for c in ast.walk(fi.node):
+            if not (isinstance(c, ast.Call) and isinstance(c.func, ast.Attribute) and c.func.attr == cal.name and isinstance(c.func.value, ast.Name) and c.func.value.id == "self"):
+                continue
+            bound = dict(zip(params, c.args))
+            bound.update({k.arg: k.value for k in c.keywords if k.arg})
+            kv, nd = bound.get(params[0]), bound.get("nodes")
+            if kv is None or nd is None or not isinstance(kv, ast.Name):
+                continue
+            n += 1
+            # statement holding the call (innermost)
+            holder = None
+            for st in ast.walk(fi.node):
+                if isinstance(st, ast.stmt) and any(x is c for x in ast.walk(st)) and not any(isinstance(s2, ast.stmt) and s2 is not st and any(x is c for x in ast.walk(s2)) for s2 in ast.walk(st)):
+                    holder = st
+            expr, defst = nd, None
+            if isinstance(nd, ast.Name):
+                defst = reaching_assign(fi.node, holder, nd.id, pos)
+                expr = defst.value if defst is not None else None
+            mentions = expr is not None and any(isinstance(x, ast.Name) and x.id == kv.id for x in ast.walk(expr))
+            # in-place changes of the new vector after the nodes were taken
+            late = []
+            if defst is not None:
+                for st in ast.walk(fi.node):
+                    if isinstance(st, ast.AugAssign) and any(isinstance(x, ast.Name) and x.id == kv.id for x in ast.walk(st.target)) and defst.lineno < st.lineno < holder.lineno:
+                        late.append(st)
+                    if isinstance(st, ast.Assign) and any(kv.id in _target_names(t) for t in st.targets) and defst.lineno < st.lineno < holder.lineno:
+                        late.append(st)
+            ok = mentions and not late
+            why = "" if ok else f"`{seg(expr, 50) if expr is not None else seg(nd, 30)}` is not computed from `{kv.id}`" if not mentions else f"`{kv.id}` is changed by `{seg(late[0], 40)}` after the nodes were taken"
+            chk.ob(rule, f"{q}: the interpolation nodes of `{seg(c, 40)}` are the knots of `{kv.id}`", ok, loc=f"{fi.module}.py:{c.lineno}",
+                   detail="" if ok else f"{q}: the nodes handed to `{seg(c, 50)}` are not those of the new knot vector: {why} — knots of the old vector that the new one no longer has (multiplicity dropped to 0) are imposed as interpolation nodes: more conditions than control points, the fit is refused (or wrong) where the reduction is exact",
+                   func=q, construct="interpolation nodes not taken from the new knot vector")
+    chk.floor(rule, "update(...) calls with interpolation nodes", n, len(quals))
+    return n
